@@ -333,7 +333,9 @@ def renameEntry (v pSect : Nat) (oldName : Bytes) (nPSect : Nat) (newName : Byte
       else
         let rc ← delFromCache v parent (entry.w F_headerKey)
         if rc ≠ rcOK then return rc
-        addInCache v nParent entry
+        let rc ← addInCache v nParent entry
+        if rc ≠ rcOK then return rc
+        updateBitmap v
     else return rc
 
 /-- `adfSetEntryComment` -/
